@@ -16,15 +16,14 @@ Definition pjoin (a b : list N) : list N :=
   | [] => match a with [] => [] | _ => if py_endswith a [sl] then a else a ++ [sl] end
   end.
 
-(* index of the last slash: split into (head-with-slash, tail) *)
-Fixpoint rsplit_slash_aux (s : list N) (acc_head acc_cur : list N) : list N * list N :=
+(* split at the last slash: (everything up to and including it, the rest) *)
+Fixpoint span_noslash (s : list N) : list N * list N :=
   match s with
-  | [] => (rev acc_head, rev acc_cur)
-  | c :: r => if c =? sl then rsplit_slash_aux r (c :: acc_cur ++ acc_head) []
-              else rsplit_slash_aux r acc_head (c :: acc_cur)
+  | [] => ([], [])
+  | c :: r => if c =? sl then ([], s) else let '(a, b) := span_noslash r in (c :: a, b)
   end.
-(* (everything up to and including the last slash, the rest) *)
-Definition rsplit_slash (s : list N) : list N * list N := rsplit_slash_aux s [] [].
+Definition rsplit_slash (s : list N) : list N * list N :=
+  let '(a, b) := span_noslash (rev s) in (rev b, rev a).
 
 (* os.path.basename *)
 Definition basename (p : list N) : list N := snd (rsplit_slash p).
